@@ -343,3 +343,49 @@ def check_must_visit(rep, model: Model, rule: str) -> None:
                                   witness_class="lazy-generator")
                 else:
                     rep.unknown(rule, construct, fi.where, f"no recognisable visit of self.{fld}")
+
+
+def check_routing(rep, model: Model, rule: str) -> None:
+    """C06.original-first: every evaluation of a stored symbolic partial (`<...synthetic...>.at(p)`)
+    is dominated by `self._original_expression.at(p)` with the same point argument."""
+    for cname in ("Partial", "Differential", "Derivative", "LocatedDifferential"):
+        if cname not in model.classes:
+            raise AnalysisError(f"anchor missing: class {cname}")
+    for ci in (model.classes["Partial"], model.classes["Differential"]):
+        for fi in ci.methods.values():
+            sn = self_name(fi)
+            if sn is None:
+                continue
+            cfg = CFG(fi.node)
+            # dominating candidates: nodes that unconditionally call self._original_expression.at(X)
+            orig_calls = {}     # node id -> set of argument source strings
+            sites = []          # (node id, call, argsrc)
+            for n in cfg.nodes:
+                for expr in node_expr(n):
+                    for e in walk_unconditional(expr):
+                        if isinstance(e, ast.Call) and isinstance(e.func, ast.Attribute) and e.func.attr == "at":
+                            ch = attr_chain(e.func.value)
+                            if ch and ch[0] == sn and len(ch) == 2 and "original" in ch[1]:
+                                orig_calls.setdefault(n.id, set()).update(ast.unparse(a) for a in e.args)
+                    for e in ast.walk(expr):
+                        if isinstance(e, ast.Call) and isinstance(e.func, ast.Attribute) and e.func.attr == "at":
+                            ch = attr_chain(e.func.value)
+                            symbolic = False
+                            if ch and ch[0] == sn and any("synthetic" in part for part in ch[1:]):
+                                symbolic = True
+                            elif ch and len(ch) == 1 and "synthetic" in ch[0]:
+                                symbolic = True
+                            if symbolic:
+                                sites.append((n.id, e, [ast.unparse(a) for a in e.args]))
+            for (nid, call, args) in sites:
+                construct = f"{fi.qualname}: {ast.unparse(call)}"
+                doms = [d for d, a in orig_calls.items() if d != nid and cfg.dominates(d, nid)
+                        and (not args or args[0] in a)]
+                if doms:
+                    rep.ok(rule, construct, f"{fi.module.rel}:{call.lineno}",
+                           "dominated by an evaluation of the original expression at the same point")
+                else:
+                    rep.violation(rule, construct, f"{fi.module.rel}:{call.lineno}",
+                                  "a stored symbolic partial is evaluated without first evaluating the original "
+                                  "expression at the same point: the symbolic form may be defined where the "
+                                  "original is not", witness_class="not-dominated")
